@@ -151,6 +151,13 @@ func genProgs(r *rng, n int, rows int, nextToken *int32, nextKey *int32, allowIn
 				}
 				*nextToken++
 				st.Token = *nextToken
+			case x == 8 && allowInsDel && r.Chance(0.5):
+				// delete a row and insert it again under the same key (new row id, same key)
+				progs[i].Stmts = append(progs[i].Stmts, PStmt{Kind: "delete", K: k, Path: st.Path})
+				st.Kind = "insert"
+				st.K = k
+				*nextToken++
+				st.Token = *nextToken
 			case x == 8 && allowInsDel:
 				st.Kind = "insert"
 				*nextKey++
@@ -203,6 +210,11 @@ func genDuel(r *rng, rows int, nextToken *int32, allowInsDel bool) []TxnProg {
 		wr = PStmt{Kind: "delete", K: k}
 	}
 	writer := TxnProg{Stmts: []PStmt{wr}, Abort: r.Chance(0.15)}
+	if r.Chance(0.4) {
+		// the row moves to another row id under the same key: delete + insert inside one transaction
+		*nextToken++
+		writer.Stmts = []PStmt{{Kind: "delete", K: k}, {Kind: "insert", K: k, Token: *nextToken}}
+	}
 	if r.Chance(0.3) {
 		*nextToken++
 		writer.Stmts = append(writer.Stmts, PStmt{Kind: "write", K: k, Token: *nextToken})
@@ -446,20 +458,25 @@ func (o *txnOracle) c04() []Violation {
 						continue
 					}
 					present := int(k) <= o.rows
-					touchedInWindow := false
+					deletedInWindow := false
 					for _, c := range writes[k] {
 						if c.txn == t.ID {
 							continue
 						}
 						if c.endRet < s.Call {
 							present = !c.del
-						} else {
-							touchedInWindow = true // committed during or after the window: cannot decide
+						} else if c.endCall <= s.Ret && c.del {
+							// a commit that removes the row was in flight during the window: the row may
+							// legitimately be absent from the answer
+							deletedInWindow = true
 						}
 					}
-					// uncommitted writers (aborted / conflict-aborted) overlapping the window make the row legitimately unreadable -> the statement would have aborted, not hidden the row
-					if present && !touchedInWindow {
-						add("committed-row-hidden", fmt.Sprintf("txn %d %s (steps %d-%d) does not return key %d although it was committed before the statement and no other transaction committed a change to it", t.ID, s.St.SQL(), s.Call, s.Ret, k))
+					// the row exists before the statement and in the state after every commit that overlaps
+					// the statement (changed, even deleted and re-inserted inside one transaction, but never
+					// absent): some version of it must be returned. Uncommitted writers overlapping the
+					// window make the row unreadable -> the statement would have aborted, not hidden the row
+					if present && !deletedInWindow {
+						add("committed-row-hidden", fmt.Sprintf("txn %d %s (steps %d-%d) does not return key %d although the row exists before the statement and after every commit during it", t.ID, s.St.SQL(), s.Call, s.Ret, k))
 					}
 				}
 			}
@@ -741,8 +758,25 @@ func execTxnSim(seed uint64, cfg TxnSimCfg, dir string) (res txnSimResult) {
 	return
 }
 
+// hasDupKeys: two transactions that each found key k absent may both insert it (no uniqueness
+// constraint, phantoms are allowed): the row-per-key model of the oracles does not apply to such a run.
+func hasDupKeys(final [][]any) bool {
+	seen := map[int32]bool{}
+	for _, r := range final {
+		k, _ := r[0].(int32)
+		if seen[k] {
+			return true
+		}
+		seen[k] = true
+	}
+	return false
+}
+
 // finalStateCheck: the final table equals the committed writes applied in commit order.
 func finalStateCheck(rows int, hist []HTxn, final [][]any) *Violation {
+	if hasDupKeys(final) {
+		return nil
+	}
 	state := map[int32]int32{}
 	for k := 1; k <= rows; k++ {
 		state[int32(k)] = int32(k)
@@ -879,7 +913,7 @@ func txnSimViolations(seed uint64, cfg TxnSimCfg, dir string) []Violation {
 		return nil
 	}
 	vs := res.viol
-	if len(vs) == 0 {
+	if len(vs) == 0 && !hasDupKeys(res.final) {
 		o := newOracle(cfg.Rows, res.hist, true)
 		vs = append(vs, o.c04()...)
 		vs = append(vs, o.c05()...)
@@ -1000,7 +1034,7 @@ func runTxnSim(run int, seed uint64) RunReport {
 			rep.Stats["plan:"+k] += n
 		}
 		vs := res.viol
-		if len(vs) == 0 {
+		if len(vs) == 0 && !hasDupKeys(res.final) {
 			o := newOracle(cfg.Rows, res.hist, true)
 			vs = append(vs, o.c04()...)
 			vs = append(vs, o.c05()...)
